@@ -60,8 +60,8 @@ GroupWalk(arr, n, g, acc, variant) ==          \* acc: [ok, name (str), groups]
                                             ELSE IF pos = {} THEN Append(gs, [name |-> w.name, items |-> <<item>>])
                                             ELSE [gs EXCEPT ![CHOOSE i \in pos : TRUE].items = Append(@, item)]],
                                 variant)
-\* [ok, groups]; an empty array is refused (the code falls through to `return false`)
+\* [ok, groups]; an empty array groups into no groups (before the repair of GroupBy it was refused)
 ImplGroupBy(arr, g, variant) ==
-    IF arr = <<>> THEN [ok |-> FALSE, groups |-> <<>>]
+    IF arr = <<>> THEN [ok |-> variant # "empty-refused", groups |-> <<>>]
     ELSE LET w == GroupWalk(arr, 1, g, [ok |-> TRUE, name |-> <<>>, groups |-> <<>>], variant) IN [ok |-> w.ok, groups |-> IF w.ok THEN w.groups ELSE <<>>]
 =============================================================================
